@@ -6,7 +6,7 @@ set -u
 patch=$(readlink -f "$1"); shift
 W=/tmp/mutrun-$$
 git -C /repo worktree add --detach $W/repo HEAD -q || exit 2
-git -C $W/repo apply "$patch" || { echo "patch does not apply"; git -C /repo worktree remove --force $W/repo; exit 2; }
+git -C $W/repo apply "$patch" 2>/dev/null || git -C $W/repo apply -3 "$patch" || { echo "patch does not apply"; git -C /repo worktree remove --force $W/repo; exit 2; }
 mkdir -p $W/out
 rsync -a --exclude target /verif/harness/ $W/harness/
 sed -i "s#/repo/marwood#$W/repo/marwood#" $W/harness/Cargo.toml
